@@ -20,6 +20,7 @@ from .exceptions import (
     MissingParameters,
     NoSuchParameter,
     MPilotError,
+    RecursiveModelStructure,
 )
 from .params import ResultParameter, ListParameter
 from .parser.parser import Parser, ProgramNode
@@ -261,6 +262,7 @@ class Program(object):
     def run(self):
         # Build dependency lookup
         dependents = {}  # {result_name, [dependent_name, ...], ...}
+        dependencies = {}  # {result_name, [referenced_name, ...], ...}
 
         for command in self.commands.values():
             references = []
@@ -282,6 +284,34 @@ class Program(object):
             for reference in references:
                 dependents[reference] = dependents.get(reference, set())
                 dependents[reference].add(command.result_name)
+
+            dependencies[command.result_name] = [
+                ref.result_name if isinstance(ref, Command) else ref
+                for ref in references
+            ]
+
+        # Reject circular references before anything is executed
+        state = {}  # {result_name: 1 (on the current path) | 2 (done)}
+        for root in self.commands.values():
+            if root.result_name in state:
+                continue
+            state[root.result_name] = 1
+            stack = [(root, iter(dependencies.get(root.result_name, ())))]
+            while stack:
+                command, references = stack[-1]
+                try:
+                    name = next(references)
+                except StopIteration:
+                    state[command.result_name] = 2
+                    stack.pop()
+                    continue
+                if state.get(name) == 1:
+                    raise RecursiveModelStructure(lineno=command.lineno)
+                elif name not in state and name in self.commands:
+                    state[name] = 1
+                    stack.append(
+                        (self.commands[name], iter(dependencies.get(name, ())))
+                    )
 
         # Find and run leaf nodes (commands without any dependents)
         for command in (
